@@ -16,12 +16,15 @@ driver = "drv_elem"
 cxx = False
 fixed_lines = 1
 rule = ("scripts = 'a handles n', a set-up building typed buffers whose element traits (harness-owned: init/fini log "
-        "creation-order tokens, init fails on the schedule given by 'a oracle <bits>') are m4/m8/n4, array ops, 'a end'; "
+        "creation-order tokens, init fails on the schedule given by 'a oracle <bits>') are m4/m8/n4 (q8: the finaliser of m4 "
+        "with 8-byte elements, as a re-typing target), array ops, 'a end'; "
         "the event log and the buffer contents are compared event for event (code = model) and the code's log must be "
         "legal (every destroyed token alive, copy sources alive, live tokens = tokens stored in [0,used) of reachable "
         "buffers after every op, nothing alive after the last handle is dropped). Stream 1 exhaustive: every op of the "
         "pool (set/insert/cut/slice/reserve/detach/reduce/bset/clone/drop at front, middle, end, past-the-end) on "
-        "either of 2 handles x 6 set-ups (shared and unshared) x 8 constructor-failure schedules, all pairs of a reduced "
+        "either of 2 handles x 10 set-ups (shared and unshared; four of them buffers whose owner constructed the elements in "
+        "place: immutable, immutable shared, no-copy shared, 64 elements so that a set replaces more than 256 bytes of "
+        "elements) x 8 constructor-failure schedules (quick: 3 for the latter four), all pairs of a reduced "
         "pool x 4 set-ups x 4 schedules, all triples of a small pool x 2 set-ups x 2 schedules; stream 2: random "
         "histories of length 25 over 3 handles; stream 3: destructor-only element type (f8, as reference_array<T>) in "
         "BufferNoCopy buffers of 1..30 elements (past the first allocation or not), shared or not, every op of a pool on "
@@ -48,6 +51,9 @@ assumptions = [
     "constructions performed by the harness itself (source elements of a set, elements placed into the region returned "
     "by mpt_array_insert) never fail; only constructor calls made by the library consult the failure schedule",
     "malloc never fails; sizes far below SIZE_MAX",
+    "mpt_buffer_set is called with the buffer's own traits or compatible ones (same finaliser and size), as "
+    "mpt_array_set/mpt_array_reserve do; its BadType refusal for other traits is not reached",
+    "buffer::copy and buffer::move (mpt++/array.cpp; no caller in the tree) are neither driven nor modelled",
 ]
 trusted = ["hand-written model MptModel/Impl/Heap.lean (callbacks = harness traits) tied to mptcore/array/*.c by harness/drv_elem.c",
            "C++ part: MptModel/Impl/HeapXX.lean tied to typed_array<Elem>/unique_array<Elem>, buffer::trim/skip, content<T>::set_length "
@@ -55,8 +61,11 @@ trusted = ["hand-written model MptModel/Impl/Heap.lean (callbacks = harness trai
            "reference part: hand-written model MptModel/Impl/Refs.lean (buffers as reference count + element list; sizes and "
            "addresses abstracted) tied to array_clone.c, array_traits.c, meta_reference_traits.c, the detach/insert/cut/set "
            "paths and reference_array<T> by harness/drv_refs.c and harness/drvxx_refs.cpp",
-           "legality of the code's callback log and of the reference counts is judged by the harness itself (live-token table, "
-           "instance table, reachability walk in drv_array.c / drv_refs.c / drvxx_refs.cpp)"]
+           "legality of the code's callback log and of the reference counts is judged by the harness (live-token table, "
+           "instance table, reachability walk in drv_array.c / drv_refs.c / drvxx_refs.cpp); the model's log is judged by the "
+           "Lean drivers with the function the theorems are about (Mpt.Heap.replay + live tokens a permutation of the stored "
+           "ones, duplicate-free; Driver/Refs.lean: token replay, reference counts, object counts), and both verdicts and "
+           "both logs have to agree"]
 
 
 def corpus(chk):
@@ -206,8 +215,10 @@ def scripts(tier, seed, scale=1):
     first = small if tier == "quick" else red[::2]
     for sn in pair_setups:
         for orc in pair_orc:
+            # quick: with a failure schedule every second follow-up op (alternating between the two schedules)
+            bs = red if tier != "quick" or orc == "-" else red[(0 if orc == "1" else 1)::2]
             for a in first:
-                for b in red:
+                for b in bs:
                     out.append(("ex2:%s:%s:%s;%s" % (sn, orc, a, b), _script(SETUPS[sn], orc, [a, b])))
     for sn in ("m4x3-shared", "m4x3-two"):
         for orc in ((["-", "01"] if sn == "m4x3-shared" else ["-"]) if tier == "quick" else ["-", "1", "01", "001", "0001"]):
